@@ -69,7 +69,7 @@ Chunks(buf, p, mj) ==
    ELSE IF h.st = "bad" THEN Bad
    ELSE IF IsBreak(h) THEN p + 1
    ELSE IF h.major # mj \/ h.indef THEN Bad
-   ELSE IF ~IsSmall(h.arg) \/ p + h.hl + ToNat(h.arg) > Len(buf) THEN Trunc
+   ELSE IF ~IsSmall(h.arg) \/ ToNat(h.arg) > Len(buf) - p - h.hl THEN Trunc
    ELSE Chunks(buf, p + h.hl + ToNat(h.arg), mj)
 ItemEnd(buf, p) ==
    LET h == HeadAt(buf, p) IN
@@ -78,7 +78,7 @@ ItemEnd(buf, p) ==
    ELSE CASE h.major \in {0, 1} -> p + h.hl
           [] h.major \in {2, 3} ->
                IF h.indef THEN Chunks(buf, p + 1, h.major)
-               ELSE IF ~IsSmall(h.arg) \/ p + h.hl + ToNat(h.arg) > Len(buf) THEN Trunc
+               ELSE IF ~IsSmall(h.arg) \/ ToNat(h.arg) > Len(buf) - p - h.hl THEN Trunc
                ELSE p + h.hl + ToNat(h.arg)
           [] h.major = 4 -> IF h.indef THEN IndefItems(buf, p + 1, 2) ELSE ItemsEnd(buf, p + h.hl, Cap(h.arg))
           [] h.major = 5 -> IF h.indef THEN IndefItems(buf, p + 1, 0)
